@@ -163,7 +163,7 @@ fn parse_increment_command(command: &mut std::str::SplitN<&str>) -> Result<Reque
         None => 1,
     };
     Ok(Request::Increment {
-        key: key.to_string(),
+        key: key.replace("\n", ""),
         inc,
     })
 }
@@ -204,7 +204,7 @@ fn parse_set_safe_command(command: &mut std::str::SplitN<&str>) -> Result<Reques
     };
 
     Ok(Request::Set {
-        key: key.to_string(),
+        key: key.replace("\n", ""),
         value: value.to_string(),
         version,
     })
@@ -226,7 +226,8 @@ fn parse_set_command(command: &mut std::str::SplitN<&str>) -> Result<Request, St
         }
     };
     Ok(Request::Set {
-        key: key.to_string(),
+        // (a line feed inside the key would start a command of its own on the nodes the write is replicated to)
+        key: key.replace("\n", ""),
         value: value.to_string(),
         version: -1,
     })
